@@ -914,6 +914,59 @@ def _rekey_probes(ctx):
                 shutil.rmtree(tmp, ignore_errors=True)
 
 
+def _link_probes(ctx):
+    """A ledger file reached through a symbolic link to a FILE (`current.bean -> archive/2024.bean`, named by an include
+    or passed to edit_file): "any way of spelling the path" - after the block the file that was read holds the printed
+    model, the link is still the same link, an unedited linked file is not rewritten, and nothing else appears."""
+    import os, tempfile, shutil, io
+    from autobean_refactor import editor as editor_lib, printer
+    for how in ('recursive', 'single'):
+        for edit in (True, False):
+            for nl in (b'\n', b'\r\n'):
+                tmp = tempfile.mkdtemp(prefix='verif-c16-link-')
+                cwd = os.getcwd()
+                rep = {'probe': 'link', 'how': how, 'edit': edit, 'crlf': nl != b'\n'}
+                try:
+                    os.makedirs(os.path.join(tmp, 'archive'))
+                    with open(os.path.join(tmp, 'main.bean'), 'wb') as f:
+                        f.write(b'include "current.bean"' + nl + b'2000-01-01 open Assets:A' + nl)
+                    target = os.path.join(tmp, 'archive', '2024.bean')
+                    orig = b'2000-01-02 open Assets:B ; c' + nl + b'2000-01-03 close Assets:B' + nl
+                    with open(target, 'wb') as f:
+                        f.write(orig)
+                    os.symlink(os.path.join('archive', '2024.bean'), os.path.join(tmp, 'current.bean'))
+                    os.utime(target, ns=(OLD_NS, OLD_NS))
+                    os.chdir(tmp)
+                    before = snapshot(tmp)
+                    if how == 'recursive':
+                        with editor_lib.Editor().edit_file_recursive('main.bean') as files:
+                            k = next(x for x in files if x.endswith('current.bean'))
+                            if edit:
+                                files[k].raw_directives[0].account = 'Assets:Z'
+                            expected = printer.print_model(files[k], io.StringIO()).getvalue().encode()
+                    else:
+                        with editor_lib.Editor().edit_file('current.bean') as file:
+                            if edit:
+                                file.raw_directives[0].account = 'Assets:Z'
+                            expected = printer.print_model(file, io.StringIO()).getvalue().encode()
+                    ctx.case(('link', how, edit, nl != b'\n'))
+                    link = os.path.join(tmp, 'current.bean')
+                    listing = sorted(os.listdir(tmp)) + sorted(os.listdir(os.path.join(tmp, 'archive')))
+                    if not os.path.islink(link) or os.readlink(link) != os.path.join('archive', '2024.bean'):
+                        ctx.oracle_fail('C16:link-replaced', 'the symbolic link the file was read through is no longer that link after the block', rep)
+                    elif open(target, 'rb').read() != expected:
+                        ctx.oracle_fail('C16:edited-content:link', f'the file read through a symbolic link holds {open(target, "rb").read()!r}, the printed model is {expected!r}', rep)
+                    elif listing != ['archive', 'current.bean', 'main.bean', '2024.bean']:
+                        ctx.oracle_fail('C16:stray-file:link', f'directory entries after the block: {listing}', rep)
+                    elif not edit and os.stat(target).st_mtime_ns != OLD_NS:
+                        ctx.oracle_fail('C16:unchanged-rewritten:link', 'an unedited file read through a symbolic link was rewritten', rep)
+                except Exception as e:
+                    ctx.oracle_fail(f'C16:exception:link:{type(e).__name__}', repr(e)[:200], rep)
+                finally:
+                    os.chdir(cwd)
+                    shutil.rmtree(tmp, ignore_errors=True)
+
+
 def _reuse_probes(ctx):
     """ONE Editor instance used for several blocks on the same files: a block that raised, or a file restored behind the
     editor's back, leaves nothing behind in the instance - every block starts from what is on disk now."""
@@ -1022,6 +1075,7 @@ def _nested_probes(ctx):
 
 def run(ctx):
     _rekey_probes(ctx)
+    _link_probes(ctx)
     _reuse_probes(ctx)
     _nested_probes(ctx)
     _run_many(ctx, ctx.scale(150, 5000), with_model=ctx.extra.get('model_available', True))
@@ -1035,10 +1089,10 @@ def replay(ctx, data):
     spec = data.get('replay') or data.get('first_diverging_replay')
     if not spec:
         return False
-    if spec.get('probe') in ('rekey', 'reuse', 'nested'):
+    if spec.get('probe') in ('rekey', 'reuse', 'nested', 'link'):
         import check
         c = check.Ctx('C16', 'quick', ctx.seed)
-        {'rekey': _rekey_probes, 'reuse': _reuse_probes, 'nested': _nested_probes}[spec['probe']](c)
+        {'rekey': _rekey_probes, 'reuse': _reuse_probes, 'nested': _nested_probes, 'link': _link_probes}[spec['probe']](c)
         return not c.oracle_fails
     res = run_scenario(spec, want_line=False)
     _classify_unexpected(spec, res)
